@@ -4,6 +4,7 @@ from __future__ import annotations
 
 import contextlib
 import importlib
+import os
 import sys
 
 import numpy as _np
@@ -190,7 +191,12 @@ def patched(modnames, extra=None, linalg_stubs=None, np_extra=None):
 _MISSING = object()
 
 
+REPO_SRC = os.environ.get("SYMX_REPO_SRC", "/repo/src").rstrip("/") + "/"
+
+
 def assert_repo_source():
+    """the analysed code must be the repository's current working tree (or, for mutant trials only,
+    the scratch worktree named by SYMX_REPO_SRC)"""
     import skmatter
 
-    assert skmatter.__file__.startswith("/repo/src/"), skmatter.__file__
+    assert skmatter.__file__.startswith(REPO_SRC), (skmatter.__file__, REPO_SRC)
